@@ -1021,7 +1021,9 @@ func (d *HAMTDirectory) AddChild(ctx context.Context, name string, nd ipld.Node)
 	}
 
 	if oldChild != nil {
-		d.removeFromSizeChange(oldChild.Name, oldChild.Cid)
+		// Use name, not oldChild.Name: links stored in the shard are named
+		// with the shard's hex prefix prepended to the entry name.
+		d.removeFromSizeChange(name, oldChild.Cid)
 	}
 	d.addToSizeChange(name, nd.Cid())
 	if oldChild == nil {
@@ -1064,7 +1066,9 @@ func (d *HAMTDirectory) RemoveChild(ctx context.Context, name string) error {
 	}
 
 	if oldChild != nil {
-		d.removeFromSizeChange(oldChild.Name, oldChild.Cid)
+		// Use name, not oldChild.Name: links stored in the shard are named
+		// with the shard's hex prefix prepended to the entry name.
+		d.removeFromSizeChange(name, oldChild.Cid)
 		d.totalLinks--
 	}
 
@@ -1161,7 +1165,13 @@ func (d *HAMTDirectory) needsToSwitchToBasicDir(ctx context.Context, name string
 
 	operationSizeChange := 0
 	if entryToRemove != nil {
-		operationSizeChange -= d.linkSizeFor(entryToRemove)
+		// The link returned by the shard carries the shard-internal name (hex
+		// prefix + entry name): size the entry under its directory name.
+		operationSizeChange -= d.linkSizeFor(&ipld.Link{
+			Name: name,
+			Size: entryToRemove.Size,
+			Cid:  entryToRemove.Cid,
+		})
 	}
 	if nodeToAdd != nil {
 		link, err := ipld.MakeLink(nodeToAdd)
@@ -1173,8 +1183,10 @@ func (d *HAMTDirectory) needsToSwitchToBasicDir(ctx context.Context, name string
 
 	// We must switch if size and maxlinks are below threshold
 	canSwitchSize := false
-	// Directory size reduced, perhaps below limit.
-	if d.sizeChange+operationSizeChange < 0 {
+	// Directory size not increased, perhaps not above the limit (anymore).
+	// (A directory whose size is back at the size it had when it became a
+	// HAMT may be exactly at the threshold, where it has to be basic.)
+	if d.sizeChange+operationSizeChange <= 0 {
 		canSwitchSize, err = d.sizeBelowThreshold(ctx, operationSizeChange)
 		if err != nil {
 			return false, err
